@@ -292,11 +292,18 @@ def callable_argument_context(rnd):
     offs = sorted(rnd.sample([0, step, 2 * step, 3 * step], rnd.randint(2, 3)))
     if rnd.random() < 0.5:
         ctx.insert_at(b, offs[0], literal_patch("nop"))
+    shared = None
+    if rnd.random() < 0.4:
+        # ONE CallPatch object registered at every offset: its callable is asked once per place and sees that place
+        def arg_shared(ictx):
+            seen.append((ictx.block is b, ictx.offset, ictx.offset if ictx.offset in offs else None))
+            return 7
+        shared = CallPatch(callee, [arg_shared])
     for o in offs:
         def arg(ictx, _o=o):
             seen.append((ictx.block is b, ictx.offset, _o))
             return 7
-        ctx.insert_at(b, o, CallPatch(callee, [arg]))
+        ctx.insert_at(b, o, shared if shared is not None else CallPatch(callee, [arg]))
         want.append(o)
     try:
         ctx.apply()
@@ -306,8 +313,9 @@ def callable_argument_context(rnd):
         if not same_block or got_off != reg_off:
             return (f"{isa.name}: the argument callable of the CallPatch registered at offset {reg_off} received a context with "
                     f"{'another block' if not same_block else 'the block'} and offset {got_off} (registrations at {offs} of one block)")
-    if sorted(x[2] for x in seen) != want:
-        return f"{isa.name}: argument callables were called for offsets {sorted(x[2] for x in seen)}, registered {want}"
+    if sorted((x[2] for x in seen), key=lambda v: -1 if v is None else v) != want:
+        return (f"{isa.name}: argument callables were called for offsets {[x[2] for x in seen]}, registered {want}" +
+                (" (one CallPatch object registered at every offset)" if shared is not None else ""))
     return None
 
 
@@ -407,8 +415,6 @@ class C17(Prop):
             w = ctxlevel.shared_patch_insertions(rndc, call_patch=True)
             if w:
                 viol.append(dict(what=w, input="ctxlevel.shared_patch_insertions(call_patch=True)", observed="", finding=None))
-        for w in ctxlevel.convention_is_not_shared():
-            viol.append(dict(what=w, input="ctxlevel.convention_is_not_shared()", observed="", finding=None))
         for w in callpatch_frames(rndc, 30 if boosted else 6):
             n += 1
             viol.append(dict(what=w, input="callpatch_frames()", observed="", finding=None))
@@ -417,6 +423,9 @@ class C17(Prop):
             w = callable_argument_context(rndc)
             if w:
                 viol.append(dict(what=w, input="callable_argument_context()", observed="", finding=None))
+        # last: where the description is shared this check changes it for everybody (it puts the values back afterwards)
+        for w in ctxlevel.convention_is_not_shared():
+            viol.append(dict(what=w, input="ctxlevel.convention_is_not_shared()", observed="", finding=None))
         seen, uniq = set(), []
         for v in viol:
             k = re.sub(r"\d+", "N", v["what"])[:60]
